@@ -22,3 +22,4 @@ Print Assumptions C06_created_leaves_truncate.
 (* re-applying a block after a revert is the same function of (state, block): identical result *)
 Theorem C06_reapply_identical : forall net s b r1 r2, apply_block net s b = r1 -> apply_block net s b = r2 -> r1 = r2.
 Proof. intros; congruence. Qed.
+Print Assumptions C06_reapply_identical.
